@@ -531,11 +531,9 @@ def stepClsH (σ : Nat → Bool) (rt : Bool) (bs : Bytes) : M String := do
   match fh.f with
   | some f =>
     -- libwifi_parse_data: type check, then malloc(body_len)
-    let dataStr ← (if Model.frameType f == 2 then do
-        match ← malloc σ (f.len - f.headerLen) with
-        | none => pure "data=err"
-        | some p => do free (some p); pure (showData f)
-      else pure "data=err")
+    let dataStr := match ← parseDataReleaseH σ f with
+      | .ok d => s!"data={toHex d.receiver}/{toHex d.transmitter}/{toHex d.body}"
+      | _ => "data=err"
     freeFrameH fh
     let rts := match f.radiotap with
       | some i => s!"{i.length}/{i.flags}"
@@ -571,17 +569,10 @@ def stepEapH (σ : Nat → Bool) (rt : Bool) (bs : Bytes) : M String := do
     let hs := match Model.checkHandshake f with | .ok r => toString r | _ => "FAULT"
     let msg := match Model.checkMessage f with | .ok r => toString r | _ => "FAULT"
     let kdl := match Model.keyDataLength f with | .ok r => toString r | _ => "FAULT"
-    let data ← (match Model.getWpaData f with
-      | .ok d => do
-        if d.keyDataLength > 0 then
-          match ← malloc σ d.keyDataLength with
-          | none => pure "err-12"
-          | some p => do
-            free (some p)
-            pure (showWpaData d.version d.type d.length d.descriptor d.information d.keyLength d.replay d.nonce d.iv d.rsc d.id d.mic d.keyData)
-        else pure (showWpaData d.version d.type d.length d.descriptor d.information d.keyLength d.replay d.nonce d.iv d.rsc d.id d.mic d.keyData)
-      | .err c => pure s!"err{c}"
-      | .fault x => pure s!"FAULT {repr x}")
+    let data := match ← wpaDataReleaseH σ f with
+      | .ok d => showWpaData d.version d.type d.length d.descriptor d.information d.keyLength d.replay d.nonce d.iv d.rsc d.id d.mic d.keyData
+      | .err c => s!"err{c}"
+      | .fault x => s!"FAULT {repr x}"
     freeFrameH fh
     let str := match Model.checkMessage f with
       | .ok 1 => "Message_1" | .ok 2 => "Message_2" | .ok 4 => "Message_3" | .ok 8 => "Message_4" | .ok _ => "Invalid" | _ => "FAULT"
